@@ -485,7 +485,9 @@ def rules(tier):
             # scorer options
             ('C13.R20', _shared_rule('plumbing', 'option_round_trip')),
             # C07-ca idea: the scorer reads the OMEN tables in the ruleset's encoding
-            ('C13.R21', _shared_rule('c07', 'r18_scorer_encoding_before_omen'))]
+            ('C13.R21', _shared_rule('c07', 'r18_scorer_encoding_before_omen')),
+            # C13-da: the guesser's terminal loader strips every field - terminals with leading/trailing blanks are loaded without them, the scorer keeps them
+            ('C13.R22', _shared_rule('c07', 'r3_record_layout'))]
 
 
 META = {
